@@ -27,12 +27,10 @@ def argminInf (l : List (Option Int)) : Option Int :=
     | none => (0 : Int)
     | some m => ((l.idxOf (some m) : Nat) : Int))
 
-/-- `df[mask].iterrows()` on a frame with the default `RangeIndex`: the selected rows in table order, each as
-`(index label, row)`; the label is the row's position and the row is handled through its position -/
-def iterrowsFrom : Nat → List Bool → List (Int × Int)
-  | _, [] => []
-  | k, b :: bs => if b then ((k : Int), (k : Int)) :: iterrowsFrom (k + 1) bs else iterrowsFrom (k + 1) bs
-def iterrows (mask : List Bool) : List (Int × Int) := iterrowsFrom 0 mask
+/-- `df[mask].iterrows()` on a frame with the default `RangeIndex`: the selected rows (the positions where the mask is true) in table
+order, each as `(index label, row)`; the label is the row's position and the row is handled through its position -/
+def iterrows (mask : List Bool) : List (Int × Int) :=
+  ((List.range mask.length).filter (fun k => mask.getD k false)).map (fun (k : Nat) => ((k : Int), (k : Int)))
 
 /-- `next(it)`: the first remaining item and the rest (StopIteration = `none`) -/
 def next (it : List α) : Option (α × List α) :=
